@@ -134,7 +134,8 @@ def analyse_text(h, mop, text: str, clauses):
             text_i = c[2]
             toks = [t for t in text_i.replace("\t", " ").split(" ") if t]
             if "mnemonic" in clauses:
-                allowed = set(toks) | ({"bad"} if "(bad)" in toks else set()) | {t.split(",")[0] for t in toks[:1]}
+                allowed = set(toks) | ({"bad"} if "(bad)" in toks else set()) | {t.split(",")[0] for t in toks[:1]} \
+                    | {t[:-3] for t in toks if t.endswith((",pn", ",pt"))}      # branch hints are not part of the mnemonic, also after prefix words
                 if r[1] not in allowed:
                     problems.append(("mnemonic", lines[i], f"one of {sorted(allowed)[:6]}", r[1]))
             e = rm.expected_instruction(c[1], text_i)
@@ -337,6 +338,15 @@ EXOTIC64 = """
  xbegin .+6
  .byte 0x2e,0x70,0x02
  .byte 0x3e,0x71,0x02
+ .byte 0x66,0x2e,0x74,0x05
+ .byte 0x66,0x3e,0x75,0x05
+ .byte 0x66,0x2e,0xe3,0x05
+ .byte 0xf2,0x2e,0x70,0x05
+ .byte 0x66,0x66,0x2e,0x74,0x05
+ .byte 0x3e,0xe2,0x05
+ .byte 0x66,0x3e,0xe2,0x05
+ .byte 0xf2,0x3e,0x0f,0x84,1,0,0,0
+ .byte 0x66,0x2e,0x0f,0x85,1,0
  .byte 0x66
 """
 EXOTIC32 = """
